@@ -279,7 +279,7 @@ def runProgram (d : DState) (src : Str) (args : List String) : String × DState 
       match runLoop prog mode fuel 0 prog (St.init w) with
       | .ok s =>
         let extra := (if wantFs then " fs=" ++ fsListing d.root s.world.fs else "") ++
-          (if wantHeap then s!" nlists={s.heap.lists.length} nfreeL={s.heap.freeLists.length} nrecords={s.heap.records.length} nfreeR={s.heap.freeRecords.length} colls={s.gcCount}" else "")
+          (if wantHeap then s!" nlists={s.heap.lists.length} nfreeL={s.heap.freeLists.length} nrecords={s.heap.records.length} nfreeR={s.heap.freeRecords.length} colls={s.gcCount} dupL={s.heap.freeLists.length - s.heap.freeLists.eraseDups.length} dupR={s.heap.freeRecords.length - s.heap.freeRecords.eraseDups.length}" else "")
         (s!"out={outHex s.out} status=ok" ++ extra ++ spec, { d with fs := s.world.fs.filter (fun e => World.isUnder d.root e.path) })
       | .err e => (s!"out={outHex e.out} status=" ++ statusOf (Res.err e : Res Unit) true ++ spec, d)
       | r => ("out=- status=" ++ statusOf r false ++ spec, d)
